@@ -6,11 +6,13 @@ package ext
 
 //@ trusted func net/netip.(Prefix).Bits
 //@   pure
-//@   ensures result >= -1 && result <= 128
+//@   ensures result >= -1 && result <= 128 && (p.IsValid() <==> result >= 0)
+//@   ensures (p.Addr().Is4() ==> result <= 32) && (!p.Addr().IsValid() ==> result < 0)
 
 //@ trusted func net/netip.(Addr).BitLen
 //@   pure
 //@   ensures result == 0 || result == 32 || result == 128
+//@   ensures (ip.Is4() ==> result == 32) && (ip.Is6() ==> result == 128) && (!ip.IsValid() ==> result == 0)
 
 //@ trusted func net/netip.AddrFromSlice
 //@   pure
